@@ -861,7 +861,15 @@ def gen_mixed(rnd, plan, info, fs, heap, nops=300, workers=1):
             g.ops.append(f"bind {nm}"); muts.add(nm)
         elif u < 0.89 and len(muts) > 1:
             dm = max(muts)
+            # the mutator goes while it holds roots and a non-empty barrier buffer: old -> young stores through it first
+            for _ in range(r.choice([0, 1, 3])):
+                if old and pool:
+                    s = r.choice(old)
+                    if g.nf[s]:
+                        g.write(s, r.randrange(g.nf[s]), r.choice(pool[-10:]), dm)
             g.ops.append(f"destroy {dm}"); muts.discard(dm)
+            if r.random() < 0.6:
+                g.gc(0, False)
         elif u < 0.92 and pool and plan in IMMIX_FAMILY and info["pinning"]:
             x = r.choice(pool[-20:])
             if g.sem[x] == "Default":
@@ -1051,6 +1059,82 @@ def gen_pressure(g, heap, slots=range(16, 48), small_slot=48):
         g.root(0, s, None)
 
 
+def gen_destroy(rnd, plan, info, fs, heap, workers=1, rounds=10):
+    """C01: a mutator is destroyed while it still holds write-barrier state (generational mod-buffer / SATB buffer)
+    and roots. Per round: old objects (rooted by mutator 0 / VM roots; matured by a GC, or born mature: Immortal, Los)
+    — `bind m` — young objects allocated through m, rooted ONLY in m's slots — `write m <old> <f> <young>` (+ young ->
+    young chains, old -> old stores, null stores, all through m, fewer than a buffer-full) — `destroy m` (m's roots go,
+    the young objects are now reachable only through the old ones; the barrier buffers must reach the collector) —
+    nursery `gc 0 0`, `snap` — then a store into the same old object by mutator 0 (it must be remembered again),
+    nursery GC, snap; sometimes a full GC."""
+    g = Gen(rnd, plan, info, fs, heap)
+    r = rnd
+    g.anchor()
+    olds = []
+    nxt_m = 1
+    for rd in range(rounds):
+        # old objects (kept by mutator 0 / VM roots)
+        fresh_old = []
+        for _ in range(r.choice([1, 2, 4, 8])):
+            sem = r.choice(["Default", "Default", "Default", "Los", "Immortal"])
+            nf = r.choice([1, 2, 4, 8, 64])
+            size = r.choice([64, 256, 1024]) if sem != "Los" else r.choice([20000, 70000])
+            x = g.alloc(0, nf, max(size, 40 + 8 * nf), sem, slot=r.randrange(0, 16))
+            if x is None:
+                continue
+            if r.random() < 0.5:
+                g.ops.append(f"vmroot {r.randrange(0, 64)} {x}")
+            fresh_old.append(x)
+        if r.random() < 0.85:
+            g.gc(0, r.random() < 0.4)          # mature them (Immortal / Los ones are used either way)
+        olds = (olds + fresh_old)[-24:]
+        m = nxt_m
+        nxt_m = nxt_m % 3 + 1
+        g.ops.append(f"bind {m}")
+        youngs = []
+        for k in range(r.choice([1, 2, 5, 12, 40])):
+            nf = r.choice([0, 1, 2, 4])
+            y = g.alloc(m, nf, r.choice([32, 48, 64, 256, 2048]), "Default", slot=r.randrange(0, 48))
+            if y is None:
+                continue
+            src = r.choice(olds) if (not youngs or r.random() < 0.7) else r.choice(youngs)
+            if g.nf[src]:
+                g.write(src, r.randrange(g.nf[src]), y, m)
+            youngs.append(y)
+            u = r.random()
+            if u < 0.15 and len(olds) > 1:
+                a, b = r.choice(olds), r.choice(olds)
+                if g.nf[a]:
+                    g.write(a, r.randrange(g.nf[a]), b, m)
+            elif u < 0.25:
+                a = r.choice(olds)
+                if g.nf[a]:
+                    g.write(a, r.randrange(g.nf[a]), None, m)
+        if r.random() < 0.3:
+            g.ops.append(f"flush {m}")            # sometimes the buffers are already with the collector
+        if r.random() < 0.2:
+            for _ in range(r.choice([3, 30])):    # allocation by the other mutator in between
+                g.alloc(0, 0, r.choice([64, 4096, 8000]), "Default", slot=60)
+        g.ops.append(f"destroy {m}")
+        g.gc(0, False)
+        # the old objects must be remembered again when mutator 0 stores into them
+        if olds and r.random() < 0.7:
+            for _ in range(r.choice([1, 3])):
+                a = r.choice(olds)
+                y = g.alloc(0, 1, 64, "Default", slot=61)
+                if y is not None and g.nf[a]:
+                    g.write(a, r.randrange(g.nf[a]), y, 0)
+            g.root(0, 61, None)
+            g.gc(0, False)
+        if r.random() < 0.3:
+            g.gc(0, True)
+        if r.random() < 0.3:
+            for s_ in r.sample(range(0, 16), 6):
+                g.root(0, s_, None)
+    g.ops += ["snap", "gc 0 1", "snap", "stats"]
+    return Program(plan, normalize(g.ops), heap=heap, workers=workers, fs=fs, tag="destroy")
+
+
 def gen_cycles(rnd, plan, info, fs, heap, cycles=12, workers=1, warm=3, slack=C09_SLACK, pressure=True):
     """C09: N cycles `allocate ~40% of the heap (collectable semantics only); drop every root but the
     anchor; [full-heap phase with failing non-safepoint requests: gen_pressure]; gc exhaustive; stats`."""
@@ -1139,11 +1223,13 @@ def suite(name, seed, tier):
                         if w == 1:
                             mk = [lambda: gen_mixed(rnd, plan, info, fs, heap_for(plan, rnd), 300 if not thorough else 1200, w),
                                   lambda: gen_sizes(rnd, plan, info, fs, heap_for(plan, rnd), w),
-                                  lambda: gen_list(rnd, plan, info, fs, heap_for(plan, rnd, True), rnd.choice([1000, 2000]) if not thorough else rnd.choice([3000, 10000]), w)]
+                                  lambda: gen_list(rnd, plan, info, fs, heap_for(plan, rnd, True), rnd.choice([1000, 2000]) if not thorough else rnd.choice([3000, 10000]), w),
+                                  lambda: gen_destroy(rnd, plan, info, fs, heap_for(plan, rnd), w, 10 if not thorough else 40)]
                         else:
                             mk = [lambda: gen_mixed(rnd, plan, info, fs, heap_for(plan, rnd), 300 if not thorough else 1200, w),
                                   lambda: gen_churn(rnd, plan, info, fs, heap_for(plan, rnd, True), 1500 if not thorough else 6000, w),
-                                  lambda: gen_immortal(rnd, plan, info, fs, heap_for(plan, rnd), w)]
+                                  lambda: gen_immortal(rnd, plan, info, fs, heap_for(plan, rnd), w),
+                                  lambda: gen_destroy(rnd, plan, info, fs, heap_for(plan, rnd, True), w, 10 if not thorough else 40)]
                     elif name == "cycles":
                         if not info["collects"]:
                             continue
